@@ -283,6 +283,77 @@ def struct_of(fd):
     return None
 
 
+def structs_of(fd):
+    """the nested structures (inline or class references) one `<field>._mapper` entry is handed down to: the
+    field itself, the elements of an Array / Set / Tuple (homogeneous or positional), arrays of arrays"""
+    k = fd.get("k")
+    if k == "struct":
+        return [fd]
+    if k in ("seqOf", "setOf", "tupleOf") and isinstance(fd.get("item"), dict):
+        return structs_of(fd["item"])
+    if k in ("seqPos", "tuplePos"):
+        return [st for x in fd["items"] for st in structs_of(x)]
+    return []
+
+
+def all_class_refs(d, acc):
+    """every nested Structure class (non-inline) of a declaration, by name"""
+    if isinstance(d, list):
+        for x in d:
+            all_class_refs(x, acc)
+    elif isinstance(d, dict):
+        if d.get("k") == "struct" and not d.get("inline"):
+            acc.setdefault(d["name"], d)
+        for k, v in d.items():
+            if k not in ("values", "defaults"):
+                all_class_refs(v, acc)
+    return acc
+
+
+def inject_shapes(rng, dg, cls):
+    """the sites through which a serialization mapper is handed down (or not): a nested class / an inline
+    structure with multi-word keys as Tuple element, in an Array of Arrays, as positional Array item, as Map
+    value, as Array element, inside an inline structure"""
+    def ref():
+        fields = [["in_a", {"k": "integer"}], ["b_b", {"k": "string"}], ["c", {"k": "boolean"}]][:rng.randint(2, 3)]
+        return {"k": "struct", "name": dg.fresh("Cls"), "addl": rng.random() < 0.5,
+                "required": sorted(n for n, _ in fields if rng.random() < 0.8), "fields": fields}
+
+    def inl():
+        d = ref()
+        d["name"] = dg.fresh("Inl")
+        d["inline"] = True
+        return d
+    free = [n for n in ["p_q", "r_s", "t_u"] if n not in [x for x, _ in cls["fields"]]]
+    for name in free[:rng.choice([1, 1, 2])]:
+        st = ref() if rng.random() < 0.55 else inl()
+        shape = rng.choice(["tupleOf", "tuplePos", "seqseq", "seqPos", "seqPos", "mapOf", "seqOf", "direct", "inInline"])
+        if shape == "tupleOf":
+            fd = {"k": "tupleOf", "item": st}
+        elif shape == "tuplePos":
+            fd = {"k": "tuplePos", "items": [st, {"k": "integer"}]}
+        elif shape == "seqseq":
+            fd = {"k": "seqOf", "item": {"k": "seqOf", "item": st}}
+        elif shape == "seqPos":
+            fd = {"k": "seqPos", "items": [st, {"k": "string"}] if rng.random() < 0.5 else [{"k": "integer"}, st]}
+            if rng.random() < 0.5:
+                fd["addl"] = False
+        elif shape == "mapOf":
+            fd = {"k": "mapOf", "key": {"k": "string"}, "val": st}
+        elif shape == "seqOf":
+            fd = {"k": "seqOf", "item": st}
+        elif shape == "direct":
+            fd = st
+        else:
+            inner = rng.choice([{"k": "tupleOf", "item": st}, {"k": "seqPos", "items": [st, {"k": "integer"}]},
+                                {"k": "seqOf", "item": {"k": "seqOf", "item": st}}, st])
+            fd = {"k": "struct", "name": dg.fresh("Inl"), "inline": True, "addl": True, "required": ["w_w"],
+                  "fields": [["w_w", inner], ["z", {"k": "integer"}]]}
+        cls["fields"].append([name, fd])
+        if rng.random() < 0.6:
+            cls["required"] = sorted(cls["required"] + [name])
+
+
 def inject_inline(rng, dg, cls):
     """make sure the key-renaming stream regularly meets an inline nested structure (directly and as
     array element) whose own key and nested keys can both be renamed"""
@@ -313,9 +384,13 @@ def gen_dict_mapper(rng, fields, depth=0):
     chosen = [n for n in names if rng.random() < 0.6] or names[:1]
     m = {n: _rename(rng, n) for n in chosen}
     for n, fd in fields:
-        inl = struct_of(fd)
-        if inl is not None and rng.random() < (0.85 if inl.get("inline") else 0.5) and depth < 2:
-            m[n + "._mapper"] = gen_dict_mapper(rng, inl["fields"], depth + 1)
+        sts = structs_of(fd)
+        if sts and rng.random() < (0.85 if any(st.get("inline") for st in sts) else 0.5) and depth < 2:
+            merged = {}
+            for st in sts:
+                for fn, ff in st["fields"]:
+                    merged.setdefault(fn, ff)
+            m[n + "._mapper"] = gen_dict_mapper(rng, list(merged.items()), depth + 1)
     return m
 
 
@@ -350,9 +425,10 @@ def gen_cases(rng, tier, n_classes):
         if rng.random() < 0.15:
             cls["required"] = sorted(n for n, _ in cls["fields"])     # never `required: []`
         tweak_decl(rng, cls, vg)
-        mapper_stream = rng.random() < 0.12 and not cls.get("collide")
+        mapper_stream = rng.random() < 0.15 and not cls.get("collide")
         if mapper_stream:
             inject_inline(rng, dg, cls)
+            inject_shapes(rng, dg, cls)
         C.fix_accepts(cls)
         kws = []
         for _ in range(3):
@@ -378,8 +454,17 @@ def gen_cases(rng, tier, n_classes):
         # oracle-only stream: a key-renaming serialization mapper (not in the Lean model)
         wrapper = len(cls["fields"]) == 1 and set(cls["required"]) == {cls["fields"][0][0]} and cls.get("addl", True) is False
         if mapper_stream and not wrapper:
-            case["mapper"] = gen_mapper(rng, cls)
-            case["bdocs"], case["bkeys"] = [], []
+            if rng.random() < 0.7:
+                case["mapper"] = gen_mapper(rng, cls)
+            # nested Structure classes with a key-renaming mapper of their own
+            own = {}
+            for name, st in sorted(all_class_refs(cls["fields"], {}).items()):
+                if rng.random() < 0.6:
+                    own[name] = gen_mapper(rng, st)
+            if own:
+                case["own_mappers"] = own
+            if case.get("mapper") or own:
+                case["bdocs"], case["bkeys"] = [], []
         cases.append(case)
     return cases
 
@@ -404,9 +489,23 @@ def _first_error(validator, doc):
     return out
 
 
+DEF_NODE_IDS = set()     # ids of the schema nodes under `definitions` of the schema being judged
+
+
+def _mark_definitions(node):
+    if isinstance(node, dict):
+        DEF_NODE_IDS.add(id(node))
+        for v in node.values():
+            _mark_definitions(v)
+    elif isinstance(node, list):
+        for v in node:
+            _mark_definitions(v)
+
+
 def _err_dict(e):
     return {"validator": str(e.validator), "value": _js(e.validator_value), "instance": _js(e.instance),
-            "path": [str(p) for p in e.absolute_path], "schema": _js(e.schema), "msg": e.message[:200]}
+            "path": [str(p) for p in e.absolute_path], "schema": _js(e.schema), "msg": e.message[:200],
+            "in_ref": id(e.schema) in DEF_NODE_IDS}
 
 
 def _deepest(e):
@@ -500,6 +599,9 @@ def run_impl(case):
         if old in ctx.classes:
             ctx.classes[old].__name__ = new
     res = {"cls_actual": C.fix_accepts(dump.dump_class(cls, ctx, order="definition"))}
+    for name, m in (case.get("own_mappers") or {}).items():
+        if name in ctx.classes:      # before the class is serialized or exported for the first time
+            setattr(ctx.classes[name], "_serialization_mapper", py_mapper(m))
     if case.get("mapper"):
         cls = type(cls.__name__, (cls,), {"_serialization_mapper": py_mapper(case["mapper"])})
     names = [n for n, _ in decl["fields"]]
@@ -547,6 +649,8 @@ def run_impl(case):
         res["bad_refs"] = bad[:5]
         if res["wf"] and res["refs_ok"]:
             validator = Draft4Validator(full)
+            DEF_NODE_IDS.clear()
+            _mark_definitions(full.get("definitions") if isinstance(full, dict) else None)
         pats = schema_patterns(full, set()) if isinstance(full, dict) else set()
     else:
         pats = set()
@@ -777,28 +881,79 @@ def mapped_key(name, mapper):
     return v if isinstance(v, str) else name
 
 
+def ref_sites(fd, prefix=""):
+    """where the class references of a field sit: the chain of container kinds from the field down to each
+    nested Structure class (`direct`, `seqOf`, `seqPos`, `tupleOf`, `seqOf/seqOf`, `inline/tuplePos`, ...)"""
+    k = fd.get("k")
+    out = set()
+    if k == "struct":
+        if not fd.get("inline"):
+            return {prefix + "direct" if prefix == "" or prefix.endswith("inline/") else prefix.rstrip("/")}
+        for _, f in fd["fields"]:
+            out |= ref_sites(f, prefix + "inline/")
+    elif k in ("seqOf", "setOf", "tupleOf"):
+        out |= ref_sites(fd["item"], prefix + k + "/")
+    elif k in ("seqPos", "tuplePos"):
+        for x in fd["items"]:
+            out |= ref_sites(x, prefix + k + "/")
+    elif k == "mapOf":
+        out |= ref_sites(fd["val"], prefix + "mapOf/")
+    elif k in ("anyOf", "oneOf", "allOf", "notF"):
+        for x in fd["fields"]:
+            out |= ref_sites(x, prefix + k + "/")
+    return out
+
+
+def site_on_path(fd, path, prefix=""):
+    """the site (see ref_sites) of the class reference a document path runs into; None if it cannot be followed"""
+    k = fd.get("k")
+    if k == "struct" and not fd.get("inline"):
+        return prefix + "direct" if prefix == "" or prefix.endswith("inline/") else prefix.rstrip("/")
+    if k == "struct":
+        refs = [(n, f) for n, f in fd["fields"] if ref_sites(f)]
+        if len(refs) == 1:          # nested keys may be renamed: follow the only field that holds a reference
+            return site_on_path(refs[0][1], path[1:], prefix + "inline/")
+        return None
+    if not path:
+        return None
+    if k in ("seqOf", "setOf", "tupleOf"):
+        return site_on_path(fd["item"], path[1:], prefix + k + "/")
+    if k in ("seqPos", "tuplePos"):
+        if path[0].isdigit() and int(path[0]) < len(fd["items"]):
+            return site_on_path(fd["items"][int(path[0])], path[1:], prefix + k + "/")
+        return None
+    if k == "mapOf":
+        return site_on_path(fd["val"], path[1:], prefix + "mapOf/")
+    return None
+
+
 def submapper_reaches_ref(fd, sub):
-    """a `._mapper` entry that applies to a class reference (directly or through nested inline structures)"""
-    st = struct_of(fd)
-    if st is None or not isinstance(sub, dict):
+    """a `._mapper` entry that is handed down to a class reference (through arrays / tuples / positional items
+    and nested inline structures)"""
+    if not isinstance(sub, dict):
         return False
-    if not st.get("inline"):
-        return True
-    return any(submapper_reaches_ref(f, sub.get(n + "._mapper")) for n, f in st["fields"])
+    for st in structs_of(fd):
+        if not st.get("inline"):
+            return True
+        if any(submapper_reaches_ref(f, sub.get(n + "._mapper")) for n, f in st["fields"]):
+            return True
+    return False
 
 
-def admit_key(err, cls=None, inst=None, mapper=None, mixin=False):
+def admit_key(err, cls=None, inst=None, mapper=None, mixin=False, renamed=False):
     """stable name of the phenomenon behind a validation error of a serialized valid instance"""
     if mapper and cls is not None and has_class_ref(cls["fields"]):
         # the outer class's mapper (TO_CAMELCASE / TO_LOWERCASE, or a `<field>._mapper` entry) also renames the keys
         # of nested Structure classes when serializing, while their `$ref` definitions are exported with the nested
         # class's own keys
-        if mapper.get("style") in ("camel", "upper"):
-            return "outer-mapper-not-applied-to-definitions"
-        if err.get("path"):
+        if err.get("in_ref") and (err.get("path") or len(cls["fields"]) == 1):
             for n, fd in cls["fields"]:
-                if mapped_key(n, mapper) == err["path"][0] and has_class_ref(fd) and submapper_reaches_ref(fd, (mapper.get("d") or {}).get(n + "._mapper")):
-                    return "outer-mapper-not-applied-to-definitions"
+                if (len(cls["fields"]) == 1 or mapped_key(n, mapper) == err["path"][0]) and has_class_ref(fd) and \
+                        (mapper.get("style") in ("camel", "upper")
+                         or submapper_reaches_ref(fd, (mapper.get("d") or {}).get(n + "._mapper"))):
+                    rest = (err.get("path") or [])[0 if len(cls["fields"]) == 1 and not err.get("path") else 1:]
+                    site = site_on_path(fd, rest) or "+".join(sorted(ref_sites(fd)))
+                    return "outer-mapper-not-applied-to-definitions:" + site
     if err.get("instance") in ("True", "False") and '"boolean"' in json.dumps(err.get("schema")):
         return "raw-boolean-string"
     if mixin and cls is not None and (err.get("path") or len(cls["fields"]) == 1):
@@ -815,7 +970,7 @@ def admit_key(err, cls=None, inst=None, mapper=None, mixin=False):
         m = re.match(r"'(.*)' is a required property", err["msg"])
         wrapper = cls is not None and len(cls["fields"]) == 1 and set(cls["required"]) == {cls["fields"][0][0]} \
             and cls.get("addl", True) is False
-        if m and holds_value(inst, err.get("path") or [], m.group(1), bool(mapper), wrapper):
+        if m and holds_value(inst, err.get("path") or [], m.group(1), bool(mapper) or renamed, wrapper):
             return "required-member-missing-although-set"
     if err.get("branches"):
         keys = {admit_key(b) for b in err["branches"]}
@@ -866,7 +1021,7 @@ def tags(case, impl, model):
     out = []
     if "unbuildable" in impl or "abstraction_mismatch" in impl:
         return ["impl:skipped"]
-    if case.get("mapper"):
+    if renaming(case):
         out.append("stream:key-renaming-mapper(oracle only)")
     out.append("schema:" + ("raises:" + impl["schema_err"]["err"] if "schema_err" in impl else
                             ("wf" if impl.get("wf") and impl.get("refs_ok") else "ill-formed:" + (impl.get("wf_err") or {}).get("key", "ref"))))
@@ -892,6 +1047,11 @@ def nontrivial(case):
 def describe(case, impl, model):
     return {"cls": case["cls"], "schema": impl.get("schema"), "defs": impl.get("defs"),
             "wf": impl.get("wf"), "instances": [{k: r.get(k) for k in ("doc", "valid")} for r in impl.get("insts", [])][:2]}
+
+
+def renaming(case):
+    """a key-renaming serialization mapper is in play (on the class or on a nested class): oracle-only"""
+    return bool(case.get("mapper") or case.get("own_mappers"))
 
 
 def enum_classes_used(d, acc):
@@ -926,7 +1086,7 @@ def has_multifield(d):
 
 
 def correspondence(case, impl, model):
-    if "unbuildable" in impl or case.get("mapper"):
+    if "unbuildable" in impl or renaming(case):
         return None
     if "abstraction_mismatch" in impl:
         return "dump(build(decl)) != decl: " + json.dumps(impl["abstraction_mismatch"])[:600]
@@ -981,7 +1141,7 @@ def oracle(case, impl, model):
     if "unbuildable" in impl or "abstraction_mismatch" in impl:
         return fails
     kinds = "+".join(sorted({fd["k"] for _, fd in case["cls"]["fields"]}))[:60]
-    if case.get("mapper"):
+    if renaming(case):
         # the Lean predicates describe the mapper-free class: use none of them
         model = {"raises": model.get("raises")}
     if "schema_err" in impl:
@@ -1008,7 +1168,7 @@ def oracle(case, impl, model):
                           "schema_admits_partial covers this (class, instance), yet the real schema rejects the real "
                           f"serialization: {r['error']['msg']}; doc " + json.dumps(r["doc"])[:200]))
         if r.get("valid") is False and model.get("refsFaithful") is not False:
-            fails.append((f"admits:{admit_key(r['error'], case['cls'], r.get('x'), case.get('mapper'), uses_mixin_enum(case))}",
+            fails.append((f"admits:{admit_key(r['error'], case['cls'], r.get('x'), case.get('mapper'), uses_mixin_enum(case), renaming(case))}",
                           f"serialization of a valid instance is rejected by the schema: {r['error']['msg']} at {'/'.join(r['error']['path'])}; doc " + json.dumps(r["doc"])[:200]))
         if "valid_crash" in r:
             fails.append(("validator-crash", "Draft4Validator raised on the emitted schema: " + r["valid_crash"]))
